@@ -4,18 +4,31 @@ from __future__ import annotations
 from ..engine import monitors, suite
 from ..runner import Env, Outcome
 
-THEOREMS = ["C35_stream_ordered", "C35_tick_ordered", "C35_preparing_when_queued", "C35_input_required_once"]
+THEOREMS = ["C35_stream_ordered", "C35_tick_ordered", "C35_preparing_when_queued", "C35_input_required_once",
+            "C35_run_stream_ordered", "C35_resumed_stream_ordered", "C35_running_minus_not_running", "C35_input_required_once_per_run"]
 LEAN_TARGETS = ["WfProps.C35"]
 EXPLANATION = (
     "Lean: the StepStateChanged publishes of the concatenated command lists of ANY tick history (rewind + arbitrary "
     "ticks the reducer accepts) are a valid run of the open-slot automaton (RUNNING only on a closed slot, "
     "NOT_RUNNING only on an open one) ending exactly at the in-progress table; PREPARING is emitted iff the attempt "
-    "is queued; a returned InputRequiredEvent yields exactly one publish command. Tie: reducer/runner correspondence "
-    "(the runner writes publish commands to the stream in list order - compared tick by tick incl. stream length). "
-    "Search: automaton on the real published stream, PREPARING/RUNNING counts at quiescence, InputRequiredEvent counts."
+    "is queued; a returned InputRequiredEvent yields exactly one publish command. On the runner LTS the 'reducer accepts' "
+    "proviso is discharged (no schedule from Runner.init crashes): for every fresh or RESTORED initial state and every "
+    "schedule the published stream itself - from its first event, i.e. including what the rewind at start-up re-initiates - is a "
+    "valid run of the automaton, while live its open slots are exactly the in-progress invocations; counting form: in every "
+    "stream prefix #RUNNING - #NOT_RUNNING per (step, worker) is 0 or 1, and 1 exactly for the slots in progress; over a whole "
+    "run the copies of an InputRequiredEvent on the stream equal the number of times a step returned it (no re-queue, routing, "
+    "wake-up, rewind or drain publishes it again). Tie: reducer/runner correspondence (the runner writes publish commands to "
+    "the stream in list order - compared tick by tick incl. stream length), plus the CONTENT of the lifecycle telemetry after "
+    "start-up and at the end of every run (driver op rlife), for fresh and resumed runs. Search: automaton on the real "
+    "published stream of fresh runs and of runs RESUMED from a context serialised with pending work (mid-run, after cancel / "
+    "timeout / a racing StopEvent), every step body starts under an open RUNNING slot, start-up announcements recomputed from "
+    "the snapshot, PREPARING/RUNNING counts at quiescence, InputRequiredEvent counts."
 )
 ASSUMPTIONS = suite.ENGINE_ASSUMPTIONS + [
     "'unless the run ends first': a run that exits leaves RUNNING slots unmatched by design (workers are cancelled)",
+    "step bodies do not forge StepStateChanged(RUNNING/NOT_RUNNING) events through ctx.write_event_to_stream (Act.noForge); "
+    "the whole-run InputRequiredEvent count excludes events a step writes itself, publish-request ticks and wait_for_event(waiter_event=...)",
+    "a resumed run's stream is judged from its own first event (the stream of the stopped run ends with its RUNNING slots unmatched)",
 ]
 
 
@@ -80,7 +93,7 @@ def _resumed_runs(env: Env, out: Outcome, n: int, corpus: list[dict]) -> None:
         for v in monitors.c35_resumed_announcements(tr2, d) + monitors.mon_c35(tr2):
             v.replay = case
             out.violations.append(v)
-    suite.runner_corr(out, resumed, "engine-runner-resumed")
+    suite.runner_corr(out, resumed, "engine-runner-resumed", lifecycle=True)
 
 
 def run(env: Env) -> Outcome:
@@ -88,7 +101,7 @@ def run(env: Env) -> Outcome:
     out.rule = ("direct (state,tick) pairs + live scripted workflows under random gate schedules; non-trivial = more than 2 ticks; "
                 "distinct by (spec, schedule)")
     suite.direct_corr(env, out, env.budget(3000, 60000))
-    suite.live_runs(env, out, env.budget(400, 8000), [monitors.mon_c35], extra_specs=[c for c in suite.load_corpus("C35") if "spec" in c])
+    suite.live_runs(env, out, env.budget(400, 8000), [monitors.mon_c35], extra_specs=[c for c in suite.load_corpus("C35") if "spec" in c], lifecycle=True)
 
     def _ire_consumer(spec: dict, rng) -> dict:
         """a step RETURNS an InputRequiredEvent subclass and another step, with zero-delay retries, CONSUMES it and fails once or
@@ -104,7 +117,7 @@ def run(env: Env) -> Outcome:
                               "script": ([["gate"]] if rng.random() < 0.3 else []) + [["fail_until", rng.randint(1, 2), 4], ["ret", rng.choice(["none", "stop"])]]})
         return spec
 
-    suite.live_runs(env, out, env.budget(120, 2400), [monitors.mon_c35], gen_kwargs={"family": "general"}, mutate_spec=_ire_consumer)
+    suite.live_runs(env, out, env.budget(120, 2400), [monitors.mon_c35], gen_kwargs={"family": "general"}, mutate_spec=_ire_consumer, lifecycle=True)
     # last, so that the streams above are what they were before this family existed
     _resumed_runs(env, out, env.budget(200, 4000), [c for c in suite.load_corpus("C35") if "resume" in c])
     return out
